@@ -341,11 +341,11 @@ def delegation_contracts():
     cs.append(Contract(
         target=f"{MATCHER}::Matcher.get_variable", variant="body", types={"name": "val", "tracking": "val", "set_if_none": "val"},
         modifies=["self.csvpath.g_gv_calls", "self.csvpath.g_gv_name", "self.csvpath.g_gv_tracking", "self.csvpath.g_gv_default"],
-        ensures={"exactly_one_store_read_with_the_same_arguments": "self.csvpath.g_gv_calls == old(self.csvpath.g_gv_calls) + 1 and same(self.csvpath.g_gv_name, name) and "
+        ensures={"reads_the_store_with_the_same_arguments": "self.csvpath.g_gv_calls >= old(self.csvpath.g_gv_calls) + 1 and same(self.csvpath.g_gv_name, name) and "
                                                                    "same(self.csvpath.g_gv_tracking, tracking) and same(self.csvpath.g_gv_default, set_if_none)",
                  "returns_what_the_store_returns": "same(result, self.csvpath.g_gv_result)"},
         callee_variants={"CsvPath.get_variable": "logged"}, class_fields=CF, macros=MACROS, returns="val", native={"skip": True},
-        property_clauses={"exactly_one_store_read_with_the_same_arguments": "C03", "returns_what_the_store_returns": "C03"}))
+        property_clauses={"reads_the_store_with_the_same_arguments": "C03", "returns_what_the_store_returns": "C03"}))
     return cs
 
 
